@@ -1187,6 +1187,8 @@ def run_z3(case, H):
         return
     feats = sorted(L.features(P, Cn))
     klass += ['accepted:' + f for f in feats]
+    if any(L.has_tag([p], 'pow') or any(x[0] == 'ofnat' and x[1] == 'int' for x in L.walk(p)) for p in P):
+        klass.append('accepted:premise-the-wrapper-drops')
     cm, status = find_countermodel(P, Cn, harness.digest(case) & 0xffffffff, H)
     if cm is not None:
         feature = L.explain(P, Cn)
@@ -1309,7 +1311,7 @@ def sympy_feature(prems, concl, env):
         ivar = prems[0].arg1.name
         if any(nm != ivar for nm, _ in arith.free_vars(concl)):
             return 'other-variable'
-        return 'interval:' + ('neq' if neq else concl.head.name if concl.is_comb() else 'atom')
+        return 'interval:' + ('neq' if neq else 'inequality')
     if neq:
         return 'neq-structural'
     return 'unexplained:' + (concl.head.name if concl.is_comb() else 'atom')
